@@ -54,3 +54,34 @@ Theorem C02_present_redact_build_verify :
           Val (hdr0, drop_alg (proj H enc (ownS H (selected h)) t)).
 Proof. exact present_redact_build_verify. Qed.
 Print Assumptions C02_present_redact_build_verify.
+
+(* The key-bound variant: presentation(), redact()*, key_binding(aud, alg), build(), then Verifier::verify with
+   a key-binding policy. The holder's signing of the KB-JWT and its verification under the key bound in cnf
+   are the oracles e_sign / o_kb; the premise says that what the holder signed verifies (that is C05's subject).
+   The built string is <presentation prefix><kb>, the KB-JWT carries sd_hash = hash of exactly that prefix, and
+   the verifier accepts and returns the projection determined by the selected disclosures. *)
+Theorem C02_present_redact_bind_build_verify :
+  forall (O : oracles) (H : string -> string) (enc : list json -> string),
+    (forall x y, H x = H y -> x = y) ->
+    (forall ps, o_dec O (enc ps) = DJson (JArr ps)) ->
+    forall t : atree, wf H enc t -> NoDup (alldigs H enc t) -> NoDup (hdigs H enc t) -> aheight t <= 129 ->
+    forall token jwt L ds s1 cseg s3 hdr0 a alg (rs : list string) (E : build_env) aud jalg kb n e,
+      sd_jwt_parts token = (jwt, L, None) -> jwt_parts_m jwt = Val (s1, cseg, s3) ->
+      o_claims O cseg = Ok (blind H enc t) -> o_jwt O jwt = Val (hdr0, blind H enc t) ->
+      jget "_sd_alg" (blind H enc t) = JStr a -> parse_halg a = Some alg -> o_hash O alg = H ->
+      jhas "cnf" (blind H enc t) = true -> is_null (jget "cnf" (blind H enc t)) = false ->
+      jget "kty" (jget "cnf" (blind H enc t)) = JStr "RSA" -> jget "e" (jget "cnf" (blind H enc t)) = JStr e ->
+      jget "n" (jget "cnf" (blind H enc t)) = JStr n ->
+      NoDup L -> (forall s, In s L -> In (H s) (alldigs H enc t) -> In (H s) (hdigs H enc t)) ->
+      decode_all H (o_dec O) L = Ok ds ->
+      Forall (fun x => contains tilde x = false) (jwt :: L) ->
+      forall ps, holder_presentation O token = Val {| h_jwt := jwt; h_redacted := []; h_paths := ps; h_kb := None |} ->
+      let h := holder_key_binding (redact_all {| h_jwt := jwt; h_redacted := []; h_paths := ps; h_kb := None |} rs) aud jalg in
+      let prefix := presentation_prefix jwt (selected h) in
+      e_sign E (kb_header jalg) (kb_claims aud (e_nonce E) (e_iat E) (H prefix)) = Val kb ->
+      kb <> "" -> contains tilde kb = false ->
+      o_kb O kb n e = Val (kb_header jalg, kb_claims aud (e_nonce E) (e_iat E) (H prefix)) ->
+      holder_build O E h = Val (prefix ++ kb)%string /\
+      verifier_verify O (prefix ++ kb)%string true = Val (hdr0, drop_alg (proj H enc (ownS H (selected h)) t)).
+Proof. exact present_redact_bind_build_verify. Qed.
+Print Assumptions C02_present_redact_bind_build_verify.
